@@ -47,7 +47,7 @@ fn main() {
             let out = arg(&args, "--out").expect("--out");
             let crash = arg(&args, "--crash-file").unwrap_or_else(|| format!("{out}.crash"));
             let mode = arg(&args, "--mode").unwrap_or_else(|| "both".into());
-            let prop_cases: u32 = arg(&args, "--prop-cases").and_then(|s| s.parse().ok()).unwrap_or(if thorough { 400_000 } else { 20_000 });
+            let prop_cases: u32 = arg(&args, "--prop-cases").and_then(|s| s.parse().ok()).unwrap_or(if thorough { 2_000_000 } else { 100_000 });
             let max_ops: usize = arg(&args, "--max-ops").and_then(|s| s.parse().ok()).unwrap_or(if thorough { 120 } else { 40 });
             runner::install_guards(&crash, 20);
             let t0 = Instant::now();
@@ -90,6 +90,16 @@ fn main() {
             std::fs::write(&out, serde_json::to_string_pretty(&serde_json::Value::Object(report)).unwrap()).unwrap();
         }
         #[cfg(feature = "cb-std")]
+        "decode-fuzz" => {
+            // turns a libFuzzer input (crash artefact or corpus file) back into a replayable case
+            let data = std::fs::read(&args[3]).expect("read fuzz input");
+            match args[2].as_str() {
+                "history" => println!("{}", cbverif::fuzz_decode::decode_case(&data).to_json()),
+                "bytes_io" => println!("{}", serde_json::to_string(&cbverif::fuzz_decode::decode_io_case(&data)).unwrap()),
+                t => panic!("unknown fuzz target {t}"),
+            }
+        }
+        #[cfg(feature = "cb-std")]
         "unit" => {
             // per-case digests of one layout unit (used to localise a C18 difference)
             let prop = Prop::parse(&args[2]).expect("unknown property");
@@ -105,6 +115,40 @@ fn main() {
             }
         }
         #[cfg(feature = "cb-std")]
+        "miri" => {
+            // sub-space for Miri (thorough tiers of C03/C04/C07): single-threaded, small capacities
+            let prop = Prop::parse(&args[2]).expect("unknown property");
+            let part: usize = args[3].parse().unwrap();
+            let nparts: usize = args[4].parse().unwrap();
+            let maxn: usize = args[5].parse().unwrap();
+            let stride: usize = args.get(6).and_then(|s| s.parse().ok()).unwrap_or(1);
+            let trace = std::env::var_os("CBVERIF_TRACE").is_some();
+            let units: Vec<_> = runner::enum_units(prop, false).into_iter().filter(|u| u.0 <= maxn).collect();
+            let mut cases = 0u64;
+            for (ui, (n, start, len)) in units.iter().enumerate() {
+                if ui % nparts != part {
+                    continue;
+                }
+                println!("UNIT {ui} N={n} start={start} len={len}");
+                for (k, item) in prop.enum_cases(*n, *start, *len, false).iter().enumerate() {
+                    if k % stride != ui % stride {
+                        continue;
+                    }
+                    if trace {
+                        println!("CASE {}", item.case.to_json());
+                    }
+                    match cbverif::props::exec_item(prop, item) {
+                        Ok(r) => cases += r.runs.len() as u64,
+                        Err((c, m)) => {
+                            println!("MIRI-FAIL {} {}", c.to_json(), m);
+                            std::process::exit(1);
+                        }
+                    }
+                }
+            }
+            println!("MIRI-OK cases={cases}");
+        }
+        #[cfg(feature = "cb-std")]
         "replay" => {
             let prop = Prop::parse(&args[2]).expect("unknown property");
             let text = std::fs::read_to_string(&args[3]).expect("read replay file");
@@ -113,6 +157,7 @@ fn main() {
             let cv = if v.get("case").is_some() { v["case"].clone() } else { v };
             let case: Case = serde_json::from_value(cv).expect("case");
             println!("case: {}", case.render());
+            #[cfg(not(miri))]
             runner::install_guards(&format!("{}.crash", &args[3]), 30);
             match exec_replay(prop, &case) {
                 Ok((_, digest)) => {
